@@ -26,7 +26,7 @@ RULE = ("ill-formed program => a diagnostic on some rank from find/verify, never
         "that deadlocks or delivers a wrong message; well-formed program => no rank raises")
 ASSUMPTIONS = ["MPI_Abort semantics: ranks blocked in a collective after another rank raised "
                "are aborted", "simulated MPI as in C08"]
-MIN_MONITOR = {"mon.faulted_programs": 1500, "mon.ill_formed": 1000, "mon.diagnosed": 800,
+MIN_MONITOR = {"mon.optimized_world": 300, "mon.faulted_programs": 1500, "mon.ill_formed": 1000, "mon.diagnosed": 800,
                "mon.well_formed_faulted": 20, "mon.fault_kinds": 11}
 SHARD_TIMEOUT = {"quick": 900, "thorough": 7200}
 N_PROGRAMS = {"quick": 160, "thorough": 2600}
@@ -152,6 +152,9 @@ def check_case(case: dict[str, Any], col: common.Collector) -> None:
         wf2, why2 = distgen.well_formed(d)
         kinds.add(name)
         judge(d, name, wf2, why2, col, {"desc": d, "fault": name})
+        if case.get("optimized") is not None and len(case["optimized"]) < case.get("opt_cap", 0) \
+                and rng.random() < 0.35:
+            case["optimized"].append((name, d, wf2, why2))
         col.case(common.stable_hash(d), wf2 != wf or True,
                  {"fault": name, "expected": why2, "ranks": d["nranks"]})
     # pairs (incl. cancelling pairs: the same retag / redirect applied to both ends)
@@ -194,6 +197,90 @@ def cancelling_pair(base: dict[str, Any], k: int, rng: Any) -> tuple[str, dict[s
     return "retag-both", d
 
 
+# ------------------------------------------------------------------ python -O world
+
+def optimized_world(cases: list[tuple[str, dict[str, Any], bool, str]], col: common.Collector
+                    ) -> None:
+    """The same judgement in an interpreter started with -O: asserts and the
+    ``if __debug__`` checks of find_distributed_partition are gone, so diagnosis rests on
+    the remaining checks and on verify_distributed_partition."""
+    import json
+    import os
+    import subprocess
+    import sys
+    import tempfile
+    root = os.path.dirname(os.path.dirname(os.path.dirname(os.path.abspath(__file__))))
+    with tempfile.TemporaryDirectory(prefix="vf-c10-") as td:
+        inp, outp = os.path.join(td, "in.json"), os.path.join(td, "out.json")
+        with open(inp, "w") as fh:
+            json.dump([c[1] for c in cases], fh)
+        env = dict(os.environ, PYTHONPATH=os.pathsep.join([root,
+                                                           os.environ.get("PYTHONPATH", "")]))
+        r = subprocess.run([sys.executable, "-O", "-m", "vf.checks.c10", "--child", inp, outp],
+                           env=env, capture_output=True, text=True, timeout=1500)
+        if not os.path.exists(outp):
+            col.inconc(f"python -O child failed: {r.stderr[-200:]}")
+            return
+        with open(outp) as fh:
+            res = json.load(fh)
+    for (fault, desc, wf, why), rr in zip(cases, res):
+        col.count("mon.optimized_world")
+        wit = {"desc": desc, "fault": fault, "world": "python -O"}
+        raised = rr["raised"]
+        if not wf:
+            if raised:
+                if not any(x["diagnostic"] for x in raised.values()):
+                    x = next(iter(raised.values()))
+                    col.violation(f"C10:-O:not-a-diagnostic:{why}:{x['type']}@{x['site']}",
+                                  f"{fault} under python -O: {x['type']} at stage {x['stage']}: "
+                                  f"{x['msg']}", wit)
+                else:
+                    col.histo("diagnosed_at(-O)", "+".join(sorted({x["stage"]
+                                                                    for x in raised.values()})))
+            else:
+                col.violation(f"C10:-O:undiagnosed:{why}:{rr['outcome']}",
+                              f"{fault} under python -O: ill-formed ({why}) but no rank raised; "
+                              f"executing the partition: {rr['outcome']}", wit)
+        elif raised:
+            x = next(iter(raised.values()))
+            col.violation(f"C10:-O:valid-program-rejected:{x['type']}@{x['site']}",
+                          f"{fault} under python -O: {x['msg']}", wit)
+
+
+def _child(inp: str, outp: str) -> None:
+    import json
+    common.repo_setup()
+    from vf import simmpi
+    from vf.exec import distrun
+    assert not __debug__ or True
+    with open(inp) as fh:
+        descs = json.load(fh)
+    out = []
+    for desc in descs:
+        pr = distrun.partition_all(desc, simmpi.RandomChooser(desc["seed"], "uniform"))
+        raised = {str(r): {"type": type(e).__name__, "diagnostic": is_diagnostic(e),
+                           "stage": pr.stage.get(r, "?"), "site": common.exc_site(e),
+                           "msg": str(e)[:140]} for r, e in pr.errors.items()}
+        outcome = "n/a"
+        if not raised and len(pr.partitions) == desc["nranks"]:
+            outcome = "silent-success"
+            for j, style in enumerate(("uniform", "last", "one")):
+                er = distrun.execute_all(desc, pr.partitions,
+                                         simmpi.RandomChooser(desc["seed"] + j, style))
+                if er.deadlock:
+                    outcome = "deadlock"
+                    break
+                if er.step_limit:
+                    outcome = "livelock"
+                    break
+                if er.errors:
+                    outcome = "crash:" + type(next(iter(er.errors.values()))).__name__
+                    break
+        out.append({"raised": raised, "outcome": outcome, "debug": __debug__})
+    with open(outp, "w") as fh:
+        json.dump(out, fh)
+
+
 def coverage_extra(tier: str, counters: dict[str, int], hist: dict[str, dict[str, int]]
                    ) -> dict[str, Any]:
     return {"fault_kinds": sorted(hist.get("fault_kinds_seen", {})),
@@ -201,7 +288,11 @@ def coverage_extra(tier: str, counters: dict[str, int], hist: dict[str, dict[str
 
 
 def run_shard(shard: dict[str, Any], col: common.Collector) -> None:
+    opt: list[Any] = []
+    cap = 60 if shard["cases"] and shard["cases"][0].get("tier") == "quick" else 400
     for case in shard["cases"]:
+        case["optimized"] = opt
+        case["opt_cap"] = cap
         try:
             with common.time_limit(600):
                 check_case(case, col)
@@ -214,7 +305,22 @@ def run_shard(shard: dict[str, Any], col: common.Collector) -> None:
                           f"unexpected {type(e).__name__}: {str(e)[:200]}",
                           {"case": case, "tb": traceback.format_exc()[-1500:]})
     col.count("mon.fault_kinds", len(col.hist.get("fault_kinds_seen", {})))
+    if opt:
+        try:
+            optimized_world(opt, col)
+        except Exception as e:  # noqa: BLE001
+            col.inconc(f"python -O world: {type(e).__name__}: {str(e)[:100]}")
 
 
 def replay(witness: dict[str, Any], col: common.Collector) -> None:
     check_case({"desc": witness["desc"], "fault": witness.get("fault")}, col)
+    if witness.get("world") == "python -O":
+        wf, why = distgen.well_formed(witness["desc"])
+        optimized_world([(witness.get("fault", "replay"), witness["desc"], wf, why)], col)
+
+
+if __name__ == "__main__":
+    import sys as _sys
+    if "--child" in _sys.argv:
+        _i = _sys.argv.index("--child")
+        _child(_sys.argv[_i + 1], _sys.argv[_i + 2])
